@@ -26,6 +26,7 @@ BBOX = {'EPSG:4326': (5, 45, 15, 55), 'CRS:84': (5, 45, 15, 55), 'EPSG:3857': (5
 NE = {'EPSG:4326', 'EPSG:31467'}
 PIL_FMT = {'image/png': 'PNG', 'image/jpeg': 'JPEG', 'image/gif': 'GIF', 'image/tiff': 'TIFF', 'image/GeoTIFF': 'TIFF'}
 W, H = 40, 30
+UNLISTED = ['image/png; mode=8bit', 'image/jpeg; quality=80', 'png', 'foo/png', 'IMAGE/PNG', 'image/geotiff', 'image/png ', 'jpeg', 'image/tif']
 
 
 def vkey(v):
@@ -90,7 +91,7 @@ class World(object):
             bb = (bb[1], bb[0], bb[3], bb[2])
         q = 'SERVICE=WMS&REQUEST=%s&%s=%s&LAYERS=%s&STYLES=&%s=%s&BBOX=%s&WIDTH=%d&HEIGHT=%d&FORMAT=%s' % (
             'map' if ver == '1.0.0' else 'GetMap', 'WMTVER' if ver == '1.0.0' else 'VERSION', ver, lay, 'CRS' if ver == '1.3.0' else 'SRS', srs,
-            ','.join(map(str, bb)), W, H, fmt.replace('+', '%2B'))
+            ','.join(map(str, bb)), W, H, fmt.replace('+', '%2B').replace(' ', '%20').replace(';', '%3B'))
         ev = {'op': 'map', 'v': vkey(ver), 'f': fmt, 's': srs, 'l': lay, 'ct': '-'}
         import logging
         logging.disable(logging.CRITICAL)
@@ -141,6 +142,11 @@ def run(ctx):
                             continue
                         events.append(w.getmap(v, fmt, srs, lay))
                         ctx.count((v, fmt, srs, lay))
+            # spellings that are close to a listed format but are not listed
+            for fmt in UNLISTED:
+                if fmt not in a['fmt']:
+                    events.append(w.getmap(v, fmt, 'EPSG:3857', 'lay'))
+                    ctx.count((v, fmt, 'EPSG:3857', 'lay'))
     finally:
         w.close()
     mime = {f: f for f in FORMATS}
